@@ -186,6 +186,57 @@ tx_impl!(fibre::mpmc::rendezvous::RendezvousAsyncSender<P>, [tx_async, tx_clone]
 rx_impl!(fibre::mpmc::rendezvous::RendezvousSyncReceiver<P>, [rx_sync, rx_clone]);
 rx_impl!(fibre::mpmc::rendezvous::RendezvousAsyncReceiver<P>, [rx_async, rx_clone]);
 
+// oneshot (hook H5 puts it on the loom switch): `send` consumes the handle, there is no blocking
+// receive; the receiver is an async handle (`recv()` future) with `try_recv`
+pub struct OneTx(pub Option<fibre::oneshot::Sender<P>>);
+pub struct OneRx(pub fibre::oneshot::Receiver<P>);
+impl OneTx {
+    fn fire(&mut self, p: P) -> Res {
+        let s = self.0.take().unwrap_or_else(|| panic!("MACHINERY|oneshot sender used twice"));
+        match s.send(p) {
+            Ok(()) => Res::Ok,
+            Err(TrySendError::Closed(p)) => Res::Closed(Some(p.id)),
+            Err(TrySendError::Sent(p)) => Res::Sent(p.id),
+            Err(TrySendError::Full(p)) => Res::Full(p.id),
+        }
+    }
+}
+impl Tx for OneTx {
+    fn is_async(&self) -> bool {
+        false
+    }
+    fn try_send(&mut self, p: P) -> Res {
+        self.fire(p)
+    }
+    fn send(&mut self, p: P) -> Res {
+        self.fire(p)
+    }
+    fn clone_tx(&self) -> Box<dyn Tx> {
+        Box::new(OneTx(self.0.clone()))
+    }
+}
+impl Rx for OneRx {
+    fn is_async(&self) -> bool {
+        true
+    }
+    fn try_recv(&mut self) -> Res {
+        self.0.try_recv().norm()
+    }
+    fn recv(&mut self) -> Res {
+        block_on(self.0.recv()).norm()
+    }
+    fn recv_poll_drop(&mut self) -> Res {
+        let (_wk, waker) = new_waker();
+        let mut fut = Box::pin(self.0.recv());
+        let r = poll_once(fut.as_mut(), &waker);
+        drop(fut);
+        match r {
+            Poll::Ready(x) => x.norm(),
+            Poll::Pending => Res::Pending,
+        }
+    }
+}
+
 #[derive(Clone, Copy, Debug, PartialEq, Eq, Hash)]
 pub enum Flavour {
     SpscBounded,
@@ -196,6 +247,7 @@ pub enum Flavour {
     MpmcBounded,
     MpmcUnbounded,
     MpmcRendezvous,
+    Oneshot,
 }
 impl Flavour {
     pub const ALL: [Flavour; 8] = [
@@ -218,6 +270,7 @@ impl Flavour {
             Flavour::MpmcBounded => "mpmc_bounded",
             Flavour::MpmcUnbounded => "mpmc_unbounded",
             Flavour::MpmcRendezvous => "mpmc_rendezvous",
+            Flavour::Oneshot => "oneshot",
         }
     }
     pub fn is_bounded(self) -> bool {
@@ -263,5 +316,9 @@ pub fn make(fl: Flavour, cap: Option<usize>, asyn: bool) -> (Box<dyn Tx>, Box<dy
         Flavour::MpmcBounded => pair!(fibre::mpmc::bounded::<P>(c), fibre::mpmc::bounded_async::<P>(c)),
         Flavour::MpmcUnbounded => pair!(fibre::mpmc::unbounded::<P>(), fibre::mpmc::unbounded_async::<P>()),
         Flavour::MpmcRendezvous => pair!(fibre::mpmc::rendezvous::rendezvous::<P>(), fibre::mpmc::rendezvous::rendezvous_async::<P>()),
+        Flavour::Oneshot => {
+            let (t, r) = fibre::oneshot::oneshot::<P>();
+            (Box::new(OneTx(Some(t))) as Box<dyn Tx>, Box::new(OneRx(r)) as Box<dyn Rx>)
+        }
     }
 }
